@@ -65,9 +65,13 @@ pub fn run_ops(ctx: &mut Ctx) {
     for case_no in 0..npairs {
         let mut rng = ctx.rng.fork(40_000 + case_no);
         let (n1, n2, d) = (rng.range(0, 14) as usize, rng.range(0, 14) as usize, rng.below(4));
+        // a few pairs whose inputs each stay below 256 files / xorbs while the union has more (the lookup tables of the output
+        // are then searched by interpolation, not scanned)
+        let big = case_no % 20 == 7;
+        let (n1, n2, d) = if big { ctx.stat("pairs_with_more_than_255_records_in_the_union"); if case_no % 40 == 7 { (rng.range(2, 5) as usize, rng.range(140, 250) as usize, 0) } else { (rng.range(140, 250) as usize, rng.range(2, 5) as usize, 0) } } else { (n1, n2, d) };
         let a = gen_content(&mut rng, n1, n2, d, false);
-        let kind = rng.below(6);
-        let b = related(&mut rng, &a, kind);
+        let kind = if big { 0 } else { rng.below(6) };
+        let b = if big { gen_content(&mut rng, n1, n2, d, false) } else { related(&mut rng, &a, kind) };
         let (ma, ba, ia) = build(&a);
         let (mb, bb, ib) = build(&b);
         let replay = format!("{{\"suite\":\"shard_ops\",\"seed\":{},\"case\":{},\"kind\":{}}}", ctx.seed, case_no, kind);
@@ -104,7 +108,10 @@ pub fn run_ops(ctx: &mut Ctx) {
             // every record retrievable through the lookup tables of the output; totals
             let loaded = MDBShardInfo::load_from_reader(&mut Cursor::new(&out)).unwrap();
             let mut pc: BTreeMap<u64, usize> = BTreeMap::new(); for k in fo.keys() { *pc.entry(k[0]).or_insert(0) += 1; }
-            for k in want_f.iter().filter(|k| pc[&k[0]] < 8).take(40) { match loaded.get_file_reconstruction_info(&mut Cursor::new(&out), k) { Ok(Some(f)) if Some(&f) == fo.get(k) => {}, _ => { ctx.fail("C10", "lookup-after-setop", format!("{op}: a file record is not retrievable from the output (case {case_no})"), replay.clone()); break; } } }
+            for k in want_f.iter().step_by((want_f.len() / 40).max(1)).filter(|k| pc[&k[0]] < 8) { match loaded.get_file_reconstruction_info(&mut Cursor::new(&out), k) { Ok(Some(f)) if Some(&f) == fo.get(k) => {}, _ => { ctx.fail("C10", "lookup-after-setop", format!("{op}: a file record is not retrievable from the output (case {case_no})"), replay.clone()); break; } } }
+            { let mut pcc: BTreeMap<u64, usize> = BTreeMap::new(); for k in co.keys() { *pcc.entry(k[0]).or_insert(0) += 1; }
+              let step = (want_c.len() / 40).max(1);
+              for k in want_c.iter().step_by(step).filter(|k| pcc[&k[0]] < 8) { let mut dest = [0u32; 8]; match loaded.get_cas_info_index_by_hash(&mut Cursor::new(&out), k, &mut dest) { Ok(n) if n >= 1 => {}, _ => { ctx.fail("C10", "xorb-lookup-after-setop", format!("{op}: xorb record {} of the output ({} xorb records) is not found through the output's xorb lookup table (case {case_no})", k.hex(), co.len()), replay.clone()); break; } } } }
             let mat: u64 = fo.values().map(|f| f.segments.iter().map(|s| s.unpacked_segment_bytes as u64).sum::<u64>()).sum();
             if loaded.metadata.materialized_bytes != mat || loaded.metadata.stored_bytes != co.values().map(|c| c.metadata.num_bytes_in_cas as u64).sum::<u64>() { ctx.fail("C10", "totals-after-setop", format!("{op}: footer totals differ (case {case_no})"), replay.clone()); }
             // agreement with the in-memory operation
@@ -168,7 +175,10 @@ pub fn run_ops(ctx: &mut Ctx) {
         let mut dir_prefixes: BTreeSet<u64> = BTreeSet::new();
         let mut dir_xorbs: BTreeSet<MerkleHash> = BTreeSet::new();
         for i in 0..n {
-            let g = match (&prev, rng.below(4)) { (Some(p), 0) => Gen { cas: p.cas.clone(), files: p.files.clone() }, (Some(p), 1) => related(&mut rng, p, 3), _ => { let (n1, n2) = (rng.range(0, 8) as usize, rng.range(0, 8) as usize); gen_content(&mut rng, n1, n2, 0, false) } };
+            // every eighth directory: shards of 70..120 file records each, so that a merged shard holds more than 255
+            let many_files = dno % 8 == 3;
+            if many_files && i == 0 { ctx.stat("consolidate_dirs_with_many_file_records"); }
+            let g = match (&prev, if many_files { 3 } else { rng.below(4) }) { (Some(p), 0) => Gen { cas: p.cas.clone(), files: p.files.clone() }, (Some(p), 1) => related(&mut rng, p, 3), _ => { let (n1, n2) = if many_files { (rng.range(0, 3) as usize, rng.range(70, 120) as usize) } else { (rng.range(0, 8) as usize, rng.range(0, 8) as usize) }; gen_content(&mut rng, n1, n2, 0, false) } };
             // no two chunk-table rows of the directory share a truncated hash (twin copies of one xorb excepted: a union keeps one):
             // merged bytes, hence merged names, are then independent of how the unstable sort breaks ties, and the model can decide
             // exactly like the code whether a merge reproduces a shard that is already there (ties are exercised by the set-operation
@@ -179,8 +189,24 @@ pub fn run_ops(ctx: &mut Ctx) {
                 for ch in c.chunks.iter_mut() { while !dir_prefixes.insert(ch.chunk_hash[0]) { ch.chunk_hash = rand_hash(&mut rng); } }
                 dir_xorbs.insert(c.metadata.cas_hash);
             }
-            let (mem, bytes, _) = build(&g);
+            let (mem, bytes, info0) = build(&g);
             if mem.is_empty() && rng.chance(1, 2) { continue; }
+            // one shard in five that is not the oldest is a legal shard WITHOUT lookup tables and file records (the layout of a
+            // dedup-only export under the default key): its xorb records are retrievable by scanning and must survive a merge
+            if i >= 1 && !g.cas.is_empty() && rng.chance(1, 5) {
+                let mut out = Vec::new();
+                if info0.export_as_keyed_shard(&mut Cursor::new(&bytes), &mut out, merklehash::HMACKey::default(), Duration::from_secs(1 << 28), false, false, false).is_ok() {
+                    let sf = MDBShardFile::write_out_from_reader(&dir, &mut Cursor::new(&out)).unwrap();
+                    if !files.iter().any(|(q, _)| *q == sf.path) {
+                        let t = SystemTime::UNIX_EPOCH + Duration::from_secs(1_700_000_000 + 10 * i as u64);
+                        std::fs::File::options().write(true).open(&sf.path).unwrap().set_modified(t).unwrap();
+                        files.push((sf.path.clone(), out));
+                        ctx.stat("consolidate_dirs_with_a_table_less_shard");
+                    }
+                    prev = Some(g);
+                    continue;
+                }
+            }
             let p = mem.write_to_directory(&dir).unwrap();
             if files.iter().any(|(q, _)| *q == p) { prev = Some(g); continue; }
             let t = SystemTime::UNIX_EPOCH + Duration::from_secs(1_700_000_000 + 10 * i as u64);
@@ -231,6 +257,12 @@ pub fn run_ops(ctx: &mut Ctx) {
         let mut after_f = BTreeMap::new(); let mut after_c = BTreeMap::new();
         for name in &listing { let b = std::fs::read(dir.join(name)).unwrap(); if format!("{}.mdb", compute_data_hash(&b).hex()) != *name { ctx.fail("C10", "name-not-content-hash", format!("shard file {name} is not named by its content hash"), replay.clone()); } let (f, c) = records(&b); after_f.extend(f); after_c.extend(c); }
         if after_c != before_c || after_f.keys().collect::<Vec<_>>() != before_f.keys().collect::<Vec<_>>() { ctx.fail("C10", "consolidate-lost-or-invented", "the set of retrievable records changed by consolidation".into(), replay.clone()); }
+        // every file record is still found BY HASH (through the lookup table) in some shard of the directory
+        { let mut pc: BTreeMap<u64, usize> = BTreeMap::new(); for k in before_f.keys() { *pc.entry(k[0]).or_insert(0) += 1; }
+          let shards_now: Vec<(Vec<u8>, MDBShardInfo)> = listing.iter().filter_map(|n| { let b = std::fs::read(dir.join(n)).ok()?; let i = MDBShardInfo::load_from_reader(&mut Cursor::new(&b)).ok()?; Some((b, i)) }).collect();
+          for k in before_f.keys().step_by((before_f.len() / 40).max(1)).filter(|k| pc[&k[0]] < 8) {
+              if !shards_now.iter().any(|(b, i)| matches!(i.get_file_reconstruction_info(&mut Cursor::new(b), k), Ok(Some(_)))) {
+                  ctx.fail("C10", "file-record-not-found-by-hash-after-consolidation", format!("file record {} ({} file records in the directory) was retrievable by hash before the consolidation and is found in no shard of the directory afterwards", k.hex(), before_f.len()), replay.clone()); break; } } }
         let mut fin_f = BTreeSet::new(); let mut fin_c = BTreeSet::new();
         for s in &finished { if !s.path.exists() { ctx.fail("C10", "returned-shard-missing", format!("returned shard {:?} does not exist", s.path), replay.clone()); continue; } let b = std::fs::read(&s.path).unwrap(); if compute_data_hash(&b) != s.shard_hash { ctx.fail("C10", "returned-hash-mismatch", "returned shard hash != content hash".into(), replay.clone()); } let (f, c) = records(&b); fin_f.extend(f.into_keys()); fin_c.extend(c.into_keys()); }
         for (p, b) in &files { if !p.exists() { let (f, c) = records(b); if !f.keys().all(|k| fin_f.contains(k)) || !c.keys().all(|k| fin_c.contains(k)) { ctx.fail("C10", "deleted-without-cover", format!("deleted shard {:?} has records not present in a returned shard", p), replay.clone()); } } }
